@@ -973,6 +973,8 @@ def class_key(eng, st, v):
         for g, a in reversed(v.alts[:-1]):
             e = z3.If(g, class_key(eng, st, a), e)
         return e
+    if isinstance(v, VNoneT):
+        return z3.IntVal(0)           # "no class"
     if isinstance(v, VClass):
         return z3.IntVal(cls_code(v.py))
     if isinstance(v, VFunc) and v.kind == "typeof":
